@@ -38,6 +38,7 @@ type FuncBinding struct {
 	Results  []string          `json:"results,omitempty"`
 	FreeVars []string          `json:"freevars,omitempty"`
 	Clauses  map[string]string `json:"clauses,omitempty"` // "<clause hash>:<ident>" -> fingerprint
+	Locals   map[string]string `json:"locals,omitempty"`  // name -> fingerprint, for every local whose name and definition are unique
 }
 
 var bindingsFile = "/verif/bindings.json"
@@ -297,6 +298,106 @@ func (e *Engine) renamedIdent(fn *ssa.Function, name string) string {
 	return ""
 }
 
+// stableNames maps the current names of fn's parameters, captured variables and locals to the names they
+// had when the bindings file was made (matched by position / definition). Event names, hook keys and
+// obligation names are formed from variable names (lock:mu, call:f, ...); translating them keeps the
+// contract's vocabulary stable under renames.
+func (e *Engine) stableNames(fn *ssa.Function) map[string]string {
+	if fn == nil || e.bindings == nil {
+		return nil
+	}
+	fpMu.Lock()
+	if e.stableCache == nil {
+		e.stableCache = map[*ssa.Function]map[string]string{}
+	}
+	if m, ok := e.stableCache[fn]; ok {
+		fpMu.Unlock()
+		return m
+	}
+	fpMu.Unlock()
+	out := map[string]string{}
+	fb := e.bindings[bindingKey(fn)]
+	if fb != nil {
+		cur := map[string]bool{}
+		for _, p := range fn.Params {
+			cur[p.Name()] = true
+		}
+		for _, v := range fn.FreeVars {
+			cur[v.Name()] = true
+		}
+		fps := e.allocFingerprints(fn)
+		for a := range fps {
+			cur[a.Comment] = true
+		}
+		add := func(now, then string) {
+			if now != then && then != "" && now != "" && !cur[then] {
+				out[now] = then
+			}
+		}
+		if len(fb.Params) == len(fn.Params) {
+			for i, p := range fn.Params {
+				add(p.Name(), fb.Params[i])
+			}
+		}
+		if len(fb.FreeVars) == len(fn.FreeVars) {
+			for i, v := range fn.FreeVars {
+				add(v.Name(), fb.FreeVars[i])
+			}
+		}
+		byFP := map[string]string{}
+		for n, fp := range fb.Locals {
+			byFP[fp] = n
+		}
+		cnt := map[string]int{}
+		for _, fp := range fps {
+			cnt[fp]++
+		}
+		for a, fp := range fps {
+			if then, ok := byFP[fp]; ok && cnt[fp] == 1 {
+				add(a.Comment, then)
+			}
+		}
+	}
+	fpMu.Lock()
+	e.stableCache[fn] = out
+	fpMu.Unlock()
+	return out
+}
+
+// stableSubject translates one subject name (see stableNames).
+func (e *Engine) stableSubject(fn *ssa.Function, subj string) string {
+	if m := e.stableNames(fn); m != nil {
+		if then, ok := m[subj]; ok {
+			return then
+		}
+	}
+	return subj
+}
+
+// stableEventName translates the subject part(s) of an event name: "kind:subject" or "select{k:s,k:s}".
+func (e *Engine) stableEventName(fn *ssa.Function, name string) string {
+	m := e.stableNames(fn)
+	if len(m) == 0 {
+		return name
+	}
+	one := func(s string) string {
+		if i := strings.Index(s, ":"); i >= 0 {
+			if then, ok := m[s[i+1:]]; ok {
+				return s[:i+1] + then
+			}
+		}
+		return s
+	}
+	if strings.HasPrefix(name, "select{") && strings.HasSuffix(name, "}") {
+		parts := strings.Split(name[len("select{"):len(name)-1], ",")
+		for i := range parts {
+			parts[i] = one(parts[i])
+		}
+		return "select{" + strings.Join(parts, ",") + "}"
+	}
+	return one(name)
+}
+
 // recordedFingerprint: what the identifier `name` of the clause being evaluated denoted
 // when the bindings file was made.
 func (e *Engine) recordedFingerprint(fn *ssa.Function, clause, name string) string {
@@ -377,6 +478,21 @@ func cmdBindings(args []string) {
 			}
 			for _, fv := range fn.FreeVars {
 				fb.FreeVars = append(fb.FreeVars, fv.Name())
+			}
+			fb.Locals = map[string]string{}
+			{
+				fps := e.allocFingerprints(fn)
+				byName := map[string][]string{}
+				cnt := map[string]int{}
+				for a, fp := range fps {
+					byName[a.Comment] = append(byName[a.Comment], fp)
+					cnt[fp]++
+				}
+				for n, l := range byName {
+					if len(l) == 1 && cnt[l[0]] == 1 {
+						fb.Locals[n] = l[0]
+					}
+				}
 			}
 			all[bindingKey(fn)] = fb
 			if c.NoBody {
